@@ -702,7 +702,7 @@ pub fn variants(ops_path: &str, scratch: &str) -> (u64, Vec<String>) {
         let same_bytes: Vec<(&str, BackendKind)> = vec![
             ("second run", BackendKind::Mem),
             ("std::fs::File", BackendKind::File(file_path.clone())),
-            ("cfb::create(path) over a longer stale file", BackendKind::PathApi(file_path.clone())),
+
             ("1-byte transfers", BackendKind::Chunky(Chunking::OneByte)),
             ("random short transfers", BackendKind::Chunky(Chunking::RandomShort)),
             ("Interrupted then retry", BackendKind::Chunky(Chunking::Interrupted)),
@@ -718,6 +718,23 @@ pub fn variants(ops_path: &str, scratch: &str) -> (u64, Vec<String>) {
             } else if img != img0 {
                 let k = img.iter().zip(img0.iter()).position(|(a, b)| a != b).unwrap_or(img.len().min(img0.len()));
                 violations.push(format!("history {} on backend `{}`: the file differs from the in-memory run at byte {} (lengths {} / {})", i, name, k, img.len(), img0.len()));
+            }
+        }
+        // the crate's own path constructor over a longer stale file, against the same history in
+        // memory with the same create / into_inner / open steps
+        {
+            let (r1, t1, img1) = run(h, BackendKind::MemReopened, None, None);
+            let (r, t, img) = run(h, BackendKind::PathApi(file_path.clone()), None, None);
+            let name = "cfb::create(path) over a longer stale file";
+            evaluations += 1;
+            if r != r1 {
+                let k = r.iter().zip(r1.iter()).position(|(a, b)| a != b).unwrap_or(r.len().min(r1.len()));
+                violations.push(format!("history {} on backend `{}`: result of step {} ({}) is {} but {} on the in-memory backend", i, name, k, short(&h[k.min(h.len() - 1)]), short(r.get(k).map(|s| s.as_str()).unwrap_or("<none>")), short(r1.get(k).map(|s| s.as_str()).unwrap_or("<none>"))));
+            } else if t != t1 {
+                violations.push(format!("history {} on backend `{}`: the directory table differs from the in-memory run", i, name));
+            } else if img != img1 {
+                let k = img.iter().zip(img1.iter()).position(|(a, b)| a != b).unwrap_or(img.len().min(img1.len()));
+                violations.push(format!("history {} on backend `{}`: the file differs from the in-memory run at byte {} (lengths {} / {})", i, name, k, img.len(), img1.len()));
             }
         }
         let _ = std::fs::remove_file(&file_path);
